@@ -101,12 +101,20 @@ class AW:
 # values and xsi:type values before, inside and AFTER such subtrees use whatever binding is in scope there
 C08_EXTRA["scoped_qname"] = {
     "src": '''
+class QE(Enum):
+    OA = QName("{urn:outer}a")
+    IA = QName("{urn:inner}a")
+    XA = QName("{urn:x}a")
+    MA = QName("{urn:m}a")
+
 @dataclass
 class Entry:
     class Meta:
         name = "entry"
         namespace = "urn:m"
     kind: Optional[QName] = field(default=None, metadata={"type": "Attribute"})
+    en: Optional[QE] = field(default=None, metadata={"type": "Attribute"})
+    ens: list[QE] = field(default_factory=list, metadata={"type": "Element"})
     ref: list[QName] = field(default_factory=list, metadata={"type": "Element"})
     sub: list["Entry"] = field(default_factory=list, metadata={"type": "Element"})
 
@@ -154,7 +162,11 @@ def scoped_semantic(r):
             decls.append([None, u])
             sc[None] = u
         subs = [entry(sc, depth + 1) for _ in range(r.choice([0, 0, 1, 2]) if depth < 2 else 0)]
+        def enum_value():
+            keys = [k for k in sc if k is not None and sc[k] in ("urn:outer", "urn:inner", "urn:x", "urn:m")]
+            return [r.choice(keys), "a"] if keys else None
         return {"name": "entry", "decls": decls, "kind": value(sc) if r.random() < 0.7 else None,
+                "en": enum_value() if r.random() < 0.6 else None, "ens": [v for v in [enum_value() for _ in range(r.choice([0, 1, 2]))] if v],
                 "refs": [value(sc) for _ in range(r.choice([0, 1, 2]))], "subs": subs}
 
     root_scope = {"p": "urn:outer", "t": XS_NS}
@@ -195,8 +207,10 @@ def scoped_struct(sem, rename):
     def entry(e, env, tag):
         decls, env = bind(e["decls"], env)
         kids = [{"tag": "{urn:m}ref", "decls": [], "attrs": [], "text": spell(v, env), "kids": [], "tail": None} for v in e["refs"]]
+        kids += [{"tag": "{urn:m}ens", "decls": [], "attrs": [], "text": spell(v, env), "kids": [], "tail": None} for v in e.get("ens", [])]
         kids += [entry(x, env, "{urn:m}sub") for x in e["subs"]]
-        return {"tag": tag, "decls": decls, "attrs": [["kind", spell(e["kind"], env)]] if e["kind"] else [], "text": None,
+        attrs = ([["kind", spell(e["kind"], env)]] if e["kind"] else []) + ([["en", spell(e["en"], env)]] if e.get("en") else [])
+        return {"tag": tag, "decls": decls, "attrs": attrs, "text": None,
                 "kids": kids, "tail": None}
 
     decls, env = bind(sem["decls"], {})
